@@ -59,7 +59,7 @@ class CoqJobs:
 # ------------------------------------------------------------------ inputs
 BASES = [
     b'a: b\r\n\r\nc\r\n',
-    b'Content-Type: multipart/mixed; boundary=b\n\n--b\nX: 1\n\nhi\n--b\ny\n--b--\n',
+    b'Content-Type: multipart/mixed; boundary=b\n\n--b\nX: 1\n\nhi\n--b\ny\n--b--\nz\n--b\nw\n',
     b'Content-Type: message/rfc822\n\nS: i\n\nx\n',
 ]
 
@@ -94,7 +94,7 @@ def sweep(base: bytes, subst_vals, insert_vals):
 
 
 SWEEP_VALS = [0, 9, 10, 11, 12, 13, 32, 33, 45, 58, 59, 61, 97, 98, 127, 128, 255]
-SWEEP_QUICK = [0, 9, 10, 13, 32, 45, 58, 59, 61, 97, 255]
+SWEEP_QUICK = [0, 9, 10, 11, 13, 32, 45, 58, 59, 61, 97, 255]
 
 
 def pure_inputs(ctx):
@@ -120,7 +120,7 @@ def pure_inputs(ctx):
     for i, base in enumerate(BASES):
         full = (not ctx.quick) and i == 0
         for d in sweep(base, range(256) if full else (SWEEP_QUICK if ctx.quick else SWEEP_VALS),
-                       range(256) if full else [10, 13, 32, 45]):
+                       range(256) if full else [10, 11, 13, 32, 45]):
             k += 1
             out.append(('byte_sweep', d, k % 3 == 0))
     for _ in range(ctx.scale(400, 8000)):
@@ -178,7 +178,12 @@ def section_pure(ctx, coq) -> None:
         if len(d) > COQ_MAX:
             continue
         tiny = fam in ('small', 'multipart_small')
-        (tiny_parse if tiny else parse_cases).append(M.enc_parse_case(d, obs))
+        try:
+            enc = M.enc_parse_case(d, obs)
+        except AssertionError as exc:     # an offset the model has no term for
+            ctx.disagreement('parse', {'input': d.hex()[:2000], 'unencodable': repr(exc)})
+            continue
+        (tiny_parse if tiny else parse_cases).append(enc)
         (tiny_in if tiny else parse_in).append(d)
         if fam in ('raw', 'generated') and len(lines_cases) < ctx.scale(300, 3000):
             lines_cases.append(M.enc_lines_case(d, obs['lines']))
@@ -197,8 +202,12 @@ def section_pure(ctx, coq) -> None:
                     full = M.direct_query(loaded, 'QBody', p, None)
                     o, n = rng.randint(0, len(full) + 1), rng.randint(0, len(full) + 2)
                     qs.append(('QBody', p, (o, n), M.direct_query(loaded, 'QBody', p, (o, n))))
-            fetch_cases.append(M.enc_fetch_case(d, obs['table'], res['size'], res['bs'], qs))
-            fetch_in.append(d)
+            try:
+                fetch_cases.append(M.enc_fetch_case(d, obs['table'], res['size'], res['bs'], qs))
+                fetch_in.append(d)
+            except AssertionError as exc:
+                ctx.disagreement('fetch_direct', {'input': d.hex()[:2000],
+                                                  'unencodable': repr(exc)})
         # _find_parts on its own, with boundaries the message does not declare
         if fam == 'generated' and tree['subs'] and len(parts_cases) < ctx.scale(150, 2000):
             from pymap.mime import MessageBody
@@ -268,7 +277,9 @@ def e2e_inputs(ctx, backend: str):
     for d in swept[:ctx.scale(120, 1500) if dict_b else ctx.scale(25, 200)]:
         out.append(('byte_sweep', d))
     for _ in range(ctx.scale(220, 3000) if dict_b else ctx.scale(50, 400)):
-        out.append(('generated', M.gen_message(rng)))
+        # maildir: mostly LF-only messages, which stdlib mailbox gives back unchanged
+        out.append(('generated', M.gen_message(rng, style=None if dict_b or rng.random() < 0.3
+                                               else 'lf')))
     for _ in range(ctx.scale(80, 1000) if dict_b else ctx.scale(20, 150)):
         out.append(('raw', M.gen_raw(rng, 600)))
     for _ in range(ctx.scale(4, 60) if dict_b else ctx.scale(2, 10)):
@@ -287,7 +298,7 @@ async def one_message(ctx, e, d: bytes, fam: str, rng, coq_cases, coq_inputs,
         lst = ctx.extra.setdefault('append_not_accepted', [])
         if len(lst) < 12:
             lst.append({'backend': backend, 'reply': r[-120:].decode('latin-1'),
-                        'data': d[:80].hex()})
+                        'exc': repr(e.conn.exc)[:200], 'data': d[:600].hex()})
         return 'append_rejected'
     expect_loaded = M.stdlib_roundtrip(d) if backend == 'maildir' else None
     if expect_loaded is not None:
@@ -370,9 +381,12 @@ async def one_message(ctx, e, d: bytes, fam: str, rng, coq_cases, coq_inputs,
                 qs.append(('QMime', p, None, M.lit(items.get(b'BODY[' + ps + b'.MIME]')) or b''))
             size = items.get(b'RFC822.SIZE')
             size = int(size[1]) if isinstance(size, tuple) and size[1].isdigit() else 0
-            if size < 65536:
+            try:
                 coq_cases.append(M.enc_fetch_case(eff, table, size, orig['bs'], qs))
                 coq_inputs.append(d)
+            except AssertionError as exc:
+                ctx.disagreement(f'fetch_imap_{backend}', {'input': d.hex()[:2000],
+                                                           'unencodable': repr(exc)})
     # COPY and MOVE, then look at the copies
     status = 'ok'
     do_copy = e.copy_ok
